@@ -262,4 +262,90 @@ func (*reader).SetPosition
   loop 0 inv forall k int :: head <= k && k < pos.Start ==> r.source[k] != '\n'
   loop 0 inv r.lineOffset == -1 && r.peekedLine == nil && r.line == line && sameSeg(r.pos, pos)
   loop 0 dec head
+
+// ---- blockReader: a cursor over a list of line segments (C18) ----
+// lrem(a, j, n): total view length (padding + bytes) of the segments j..n-1 of struct array a (absolute indices)
+ghost lrem(a int, j int, n int) int
+defaxiom lremDef: (forall a int, j int, n int {lrem(a, j, n)} :: j >= n ==> lrem(a, j, n) == 0) &&
+  (forall a int, j int, n int {lrem(a, j, n)} :: j < n ==> lrem(a, j, n) ==
+     elem(a, j, "Segment").Padding + elem(a, j, "Segment").Stop - elem(a, j, "Segment").Start + lrem(a, j+1, n)) &&
+  (forall a int, j int, n int {lrem(a, j, n)} :: lrem(a, j, n) >= 0 || true)
+
+macro segs(r) = r.segments.values
+// segsOK: every line lies inside the source, is non-empty, lines are in increasing order
+macro segsOK(r) = (forall k int :: 0 <= k && k < len(segs(r)) ==> (validSeg(segs(r)[k], len(r.source)) && segs(r)[k].Start < segs(r)[k].Stop)) &&
+  (forall k int :: 0 <= k && k < len(segs(r)) - 1 ==> segs(r)[k].Stop <= segs(r)[k+1].Start) &&
+  (forall k int :: 0 <= k && k < len(segs(r)) - 1 ==> segs(r)[k].Stop < segs(r)[len(segs(r))-1].Stop)
+macro brBase(r) = r.segments != nil && r.segmentsLength == len(segs(r)) && segsOK(r) &&
+  (r.segmentsLength > 0 ==> r.last == segs(r)[r.segmentsLength-1].Stop)
+macro brInv(r) = brBase(r) && r.line >= 0 &&
+  (r.line < r.segmentsLength ==> (segs(r)[r.line].Start <= r.pos.Start && r.pos.Start <= r.pos.Stop && r.pos.Stop == segs(r)[r.line].Stop &&
+     r.pos.Padding >= 0 && r.head == segs(r)[r.line].Start && (r.pos.Stop < r.last ==> r.pos.Start < r.pos.Stop)))
+macro remB(r) = (r.line < r.segmentsLength ? r.pos.Padding + r.pos.Stop - r.pos.Start +
+     lrem(arrof(segs(r)), offof(segs(r)) + r.line + 1, offof(segs(r)) + r.segmentsLength) : 0)
+
+func (*blockReader).Source
+  ensures sameslice(result, r.source)
+  modifies nothing
+
+func (*blockReader).Position
+  ensures result0 == r.line && sameSeg(result1, r.pos)
+  modifies nothing
+
+func (*blockReader).SetPadding
+  requires brInv(r) && v >= 0
+  ensures brInv(r) && r.pos.Padding == v && r.pos.Start == old(r.pos.Start) && r.pos.Stop == old(r.pos.Stop) && r.line == old(r.line)
+  ensures r.lineOffset == -1
+  modifies r.lineOffset, r.pos
+
+func (*blockReader).SetPosition
+  requires brBase(r) && line >= 0
+  requires (pos.Start != -1 && line < r.segmentsLength) ==> (segs(r)[line].Start <= pos.Start && pos.Start <= pos.Stop && pos.Stop == segs(r)[line].Stop && pos.Padding >= 0 && (pos.Stop < r.last ==> pos.Start < pos.Stop))
+  ensures brInv(r) && r.line == line && r.lineOffset == -1
+  ensures (pos.Start != -1 && line < r.segmentsLength) ==> sameSeg(r.pos, pos)
+  ensures (pos.Start == -1 && line < r.segmentsLength) ==> sameSeg(r.pos, segs(r)[line])
+  ensures line >= r.segmentsLength ==> (pos.Start != -1 ? sameSeg(r.pos, pos) : sameSeg(r.pos, old(r.pos)))
+  modifies r.lineOffset, r.line, r.head, r.pos
+
+func (*blockReader).AdvanceLine
+  requires brInv(r)
+  ensures brInv(r) && r.line == old(r.line) + 1 && r.lineOffset == -1
+  ensures r.line < r.segmentsLength ==> sameSeg(r.pos, segs(r)[r.line])
+  modifies r.lineOffset, r.line, r.head, r.pos
+
+func (*blockReader).Peek
+  uses spaceFacts
+  requires brInv(r)
+  ensures (r.line < r.segmentsLength && r.pos.Start < r.last) ==> result == (r.pos.Padding != 0 ? ' ' : r.source[r.pos.Start])
+  ensures !(r.line < r.segmentsLength && r.pos.Start < r.last) ==> result == 255
+  modifies nothing
+
+func (*blockReader).PeekLine
+  requires brInv(r)
+  ensures sameSeg(result1, r.pos)
+  ensures (r.line < r.segmentsLength && r.pos.Start < r.last) ==> (result0 != nil &&
+     len(result0) == r.pos.Padding + r.pos.Stop - r.pos.Start + (forcedNL(r.pos, r.source) ? 1 : 0) &&
+     (forall k int :: 0 <= k && k < r.pos.Padding ==> result0[k] == ' ') &&
+     (forall k int :: r.pos.Padding <= k && k < r.pos.Padding + r.pos.Stop - r.pos.Start ==> result0[k] == r.source[r.pos.Start + k - r.pos.Padding]))
+  ensures !(r.line < r.segmentsLength && r.pos.Start < r.last) ==> result0 == nil
+  ensures fresh(result0) || result0 == nil || (arrof(result0) == arrof(r.source) && cap(result0) == len(result0))
+  modifies nothing
+
+func (*blockReader).Advance
+  uses lremDef
+  requires brInv(r) && 0 <= n && n <= remB(r)
+  ensures brInv(r) && r.lineOffset == -1
+  ensures [moved] remB(r) == old(remB(r)) - n
+  ensures [sameLine] n < old(r.pos.Padding + r.pos.Stop - r.pos.Start) ==> (r.line == old(r.line) && r.pos.Stop == old(r.pos.Stop))
+  modifies r.lineOffset, r.line, r.head, r.pos
+  loop 0 inv brInv(r) && r.lineOffset == -1 && 0 <= n && n <= remB(r)
+  loop 0 inv [moved] remB(r) - n == old(remB(r)) - old(n)
+  loop 0 inv [sameLine] (old(n) - n) < old(r.pos.Padding + r.pos.Stop - r.pos.Start) ==> (r.line == old(r.line) && r.pos.Stop == old(r.pos.Stop) && r.pos.Padding + r.pos.Stop - r.pos.Start == old(r.pos.Padding + r.pos.Stop - r.pos.Start) - (old(n) - n))
+  loop 0 dec n
+
+func (*blockReader).AdvanceAndSetPadding
+  uses lremDef
+  requires brInv(r) && 0 <= n && n <= remB(r) && padding >= 0
+  ensures brInv(r)
+  modifies r.lineOffset, r.line, r.head, r.pos
 @*/
